@@ -177,6 +177,71 @@ theorem store_reject_unchanged {ρ : Type} (s : Store ρ) (xs : List Store.Xf) (
 
 /-! ## non-vacuity -/
 
+/-! ## every archive type at once: validate-then-mutate (`Behind`), ProximityArchive as an instance -/
+
+/-- **T11.5 `behind_reject_unchanged`** : whatever object sits behind the validation layer —
+fixed-cell archive, SlidingBoundariesArchive with its buffer, ProximityArchive with its k-D tree —
+a call that is rejected (by the validation, or atomically by the object itself) leaves its whole
+state equal: the validation completes before the first mutation. -/
+theorem behind_reject_unchanged {σ : Type} (B : Behind σ) (hB : B.Atomic) (s : σ) (c : Call)
+    (h : (B.step s c).2.isErr = true) : (B.step s c).1 = s := by
+  cases c with
+  | add b =>
+    simp only [Behind.step] at h ⊢
+    cases hv : validate B.nd b with
+    | none => simp [hv]
+    | some cs =>
+      simp only [hv] at h ⊢
+      exact hB.1 s cs h
+  | addSingle b =>
+    simp only [Behind.step] at h ⊢
+    cases hv : validate B.nd b with
+    | none => simp [hv]
+    | some cs =>
+      match cs, hv with
+      | [], hv => simp [hv]
+      | [c], hv =>
+        simp only [hv] at h ⊢
+        exact hB.2 s c h
+      | _ :: _ :: _, hv => simp [hv]
+  | retrieve b =>
+    simp only [Behind.step]
+    cases validateQueries B.nd b <;> rfl
+  | indexOf b =>
+    simp only [Behind.step]
+    cases validateQueries B.nd b <;> rfl
+  | clear => simp [Behind.step, Out.isErr] at h
+
+/-- **T11.6 `behind_as_if_never_happened`** : over any history, for any archive type -/
+theorem behind_as_if_never_happened {σ : Type} (B : Behind σ) (hB : B.Atomic) (s : σ) (calls : List Call) :
+    (runAll B.step s (eraseRejected B.step Out.isErr s calls)).1 = (runAll B.step s calls).1 ∧
+    (runAll B.step s (eraseRejected B.step Out.isErr s calls)).2 =
+      (runAll B.step s calls).2.filter (fun o => !o.isErr) :=
+  erase_run B.step Out.isErr (behind_reject_unchanged B hB) s calls
+
+/-- the ProximityArchive instance is atomic for every hint function -/
+theorem prox_atomic (nd : Nat) (hint : Prox → List Cand → List Prox.Hinted) : (proxBehind nd hint).Atomic := by
+  constructor
+  · intro p cs h
+    simp only [proxBehind] at h ⊢
+    cases hp : p.add (hint p cs) with
+    | ok r => simp [hp, Out.isErr] at h
+    | error e => simp [hp]
+  · intro p c h
+    simp only [proxBehind] at h ⊢
+    cases hp : p.add (hint p [c]) with
+    | ok r => simp [hp, Out.isErr] at h
+    | error e => simp [hp]
+
+/-- **T11.7 `prox_as_if_never_happened`** : C11 for ProximityArchive — contents, capacity, k-D tree
+(the model has no cache besides its state) and statistics after any history equal those of the
+history without its rejected calls, for every hint function. -/
+theorem prox_as_if_never_happened (nd : Nat) (hint : Prox → List Cand → List Prox.Hinted) (p : Prox)
+    (calls : List Call) :
+    (runAll (proxBehind nd hint).step p (eraseRejected (proxBehind nd hint).step Out.isErr p calls)).1 =
+      (runAll (proxBehind nd hint).step p calls).1 :=
+  (behind_as_if_never_happened _ (prox_atomic nd hint) p calls).1
+
 /-- a 2-cell archive: a batch whose *second* row has a NaN objective is rejected after a valid
 add; the archive is unchanged and the next valid add behaves as if it had never happened -/
 theorem nonvacuous :
